@@ -21,6 +21,7 @@ def kwName : Kw → String
   | .bridge => "bridge" | .transform => "transform" | .true_ => "true" | .false_ => "false"
   | .self_ => "self" | .selected => "selected" | .param => "param" | .not_ => "not" | .empty => "empty"
   | .not_empty => "not_empty" | .cardinality => "cardinality" | .and_ => "and" | .or_ => "or"
+  | .generate => "generate" | .event => "event" | .class_ => "class" | .creator => "creator"
 
 def pnName : Pn → String × String
   | .semi => ("SEMICOLON", ";") | .eq => ("EQUAL", "=") | .dot => ("DOT", ".") | .dcolon => ("DOUBLECOLON", "::")
@@ -92,6 +93,23 @@ mutual
     | _ => none
 end
 
+/-- EventDataListNode of EventDataItemNode(name, expression): same shape as a parameter list -/
+partial def decDataList : List Sexp → Option Params
+  | [] => some .nil
+  | list [sym "EventDataItemNode", str n, e] :: rest => do
+      let e' ← decExpr e; let rest' ← decDataList rest; some (.cons n e' rest')
+  | _ => none
+
+/-- EventSpecNode(identifier, meaning, event_data) -/
+def decSpec : Sexp → Option (String × Option String × Params)
+  | list [sym "EventSpecNode", str l, m, list (sym "EventDataListNode" :: xs)] => do
+      let d ← decDataList xs
+      match m with
+      | str mm => some (l, some mm, d)
+      | sym "none" => some (l, none, d)
+      | _ => none
+  | _ => none
+
 def decStep : Sexp → Option Step
   | list [sym "NavigationStepNode", str kl, str rel, str ph] => some ⟨kl, rel, ph⟩
   | _ => none
@@ -127,6 +145,19 @@ mutual
         let e' ← decExpr e; let b' ← decBlock b; let el' ← decElifs el; let els' ← decElse els
         some (.if_ e' b' el' els')
     | list [sym "InvocationStatementNode", e] => do let e' ← decExpr e; some (.invoke e')
+    | list [sym "GenerateClassEventNode", sp, str kl] => do
+        let (l, m, d) ← decSpec sp; some (.genEvt l m d (.cls kl))
+    | list [sym "GenerateCreatorEventNode", sp, str kl] => do
+        let (l, m, d) ← decSpec sp; some (.genEvt l m d (.creator kl))
+    | list [sym "GenerateInstanceEventNode", sp, h] => do
+        let (l, m, d) ← decSpec sp; let h' ← decExpr h; some (.genEvt l m d (.inst h'))
+    | list [sym "CreateClassEventNode", str v, sp, str kl] => do
+        let (l, m, d) ← decSpec sp; some (.createEvt v l m d (.cls kl))
+    | list [sym "CreateCreatorEventNode", str v, sp, str kl] => do
+        let (l, m, d) ← decSpec sp; some (.createEvt v l m d (.creator kl))
+    | list [sym "CreateInstanceEventNode", str v, sp, h] => do
+        let (l, m, d) ← decSpec sp; let h' ← decExpr h; some (.createEvt v l m d (.inst h'))
+    | list [sym "GeneratePreexistingNode", e] => do let e' ← decExpr e; some (.genPre e')
     | _ => none
   partial def decStmts : List Sexp → Option Block
     | [] => some .nil
@@ -180,6 +211,14 @@ mutual
   partial def encParams (ps : Params) : Sexp := list (sym "ParameterListNode" :: encParamList ps)
 end
 
+partial def encDataList : Params → List Sexp
+  | .nil => []
+  | .cons n e rest => list [sym "EventDataItemNode", str n, encExpr e] :: encDataList rest
+
+def encSpec (l : String) (m : Option String) (d : Params) : Sexp :=
+  list [sym "EventSpecNode", str l, (match m with | some mm => str mm | none => sym "none"),
+        list (sym "EventDataListNode" :: encDataList d)]
+
 def encChain (ch : List Step) : Sexp :=
   list (sym "NavigationListNode" :: ch.map fun s => list [sym "NavigationStepNode", str s.kl, str s.rel, str s.phrase])
 
@@ -206,6 +245,13 @@ mutual
     | .while_ e b => list [sym "WhileNode", encExpr e, encBlock b]
     | .if_ e b el els => list [sym "IfNode", encExpr e, encBlock b, list (sym "ElIfListNode" :: encElifs el), encElse els]
     | .invoke e => list [sym "InvocationStatementNode", encExpr e]
+    | .genEvt l m d (.cls kl) => list [sym "GenerateClassEventNode", encSpec l m d, str kl]
+    | .genEvt l m d (.creator kl) => list [sym "GenerateCreatorEventNode", encSpec l m d, str kl]
+    | .genEvt l m d (.inst h) => list [sym "GenerateInstanceEventNode", encSpec l m d, encExpr h]
+    | .createEvt v l m d (.cls kl) => list [sym "CreateClassEventNode", str v, encSpec l m d, str kl]
+    | .createEvt v l m d (.creator kl) => list [sym "CreateCreatorEventNode", str v, encSpec l m d, str kl]
+    | .createEvt v l m d (.inst h) => list [sym "CreateInstanceEventNode", str v, encSpec l m d, encExpr h]
+    | .genPre e => list [sym "GeneratePreexistingNode", encExpr e]
   partial def encStmts : Block → List Sexp
     | .nil => []
     | .cons s rest => encStmt s :: encStmts rest
